@@ -395,3 +395,119 @@ func ruleR10_4(w *World, r *Report) {
 }
 
 var _ = ast.Inspect
+
+// R10.5 the restore and capture functions perform every rebuilding action
+type action struct {
+	kind  string // "store" | "mapupdate" | "call"
+	what  string // address suffix / map field / callee name
+	val   string // substring the stored value's canonical name must contain ("" = any)
+	loop  bool   // must be inside a loop
+	guard string // substring one literal on every path must contain ("" = none)
+	why   string
+}
+
+func ruleR10_5(w *World, r *Report) {
+	u := w.Client()
+	r.Rule("R10.5", "each restore / capture function performs every action the rebuilt state depends on (the per-function counterpart of R10.1, which only knows that some function on the path writes a field)", 25)
+	table := []struct {
+		recv, fn string
+		acts     []action
+	}{
+		{"listSnapshot", "UnmarshalJSON", []action{
+			{"store", ".head", "newHead", false, "", "a fresh head"},
+			{"store", ".size", ".Size", false, "", "the stored size"},
+			{"store", ".Map", "", false, "", "a fresh identity map"},
+			{"mapupdate", "listSnapshot.Map", "", true, "", "every restored node is indexed"},
+			{"call", "insertNext", "", true, "", "every restored node is linked in stored order"},
+			{"call", "unmarshalAsNode", "", true, "", "every stored node is rebuilt"},
+		}},
+		{"listSnapshot", "MarshalJSON", []action{
+			{"store", ".Size", ".size", false, "", "the size is captured"},
+			{"call", "marshal", "", true, "", "every node (tombstones included) is captured"},
+			{"call", "getNext", "", true, "", "the raw chain is walked"},
+		}},
+		{"mapSnapshot", "UnmarshalJSON", []action{
+			{"store", ".Map", "", false, "", "a fresh map"},
+			{"mapupdate", "mapSnapshot.Map", "", true, "", "every stored entry is restored"},
+			{"store", ".Size", ".Size", false, "", "the stored size"},
+		}},
+		{"mapSnapshot", "MarshalJSON", []action{
+			{"store", ".Map", "$0.Map", false, "", "all entries (tombstones included) are captured"},
+			{"store", ".Size", "$0.Size", false, "", "the live-key count is captured as it is"},
+		}},
+		{"counterSnapshot", "UnmarshalJSON", []action{{"store", ".Value", ".Counter", false, "", "the stored value"}}},
+		{"counterSnapshot", "MarshalJSON", []action{{"store", ".Counter", ".Value", false, "", "the value is captured"}}},
+		{"jsonArray", "unmarshal", []action{
+			{"mapupdate", "listSnapshot.Map", "", true, "", "every restored node is indexed"},
+			{"call", "insertNext", "", true, "", "every restored node is linked in stored order"},
+			{"store", ".size", ".S", false, "", "the stored size"},
+			{"call", "findJSONType", "", true, "", "nodes point at the rebuilt JSON values"},
+		}},
+		{"jsonArray", "marshal", []action{
+			{"store", ".S", ".size", false, "", "the size is captured"},
+			{"call", "getNext", "", true, "", "the raw chain (tombstones included) is captured"},
+		}},
+		{"jsonObject", "unmarshal", []action{
+			{"mapupdate", "mapSnapshot.Map", "", true, "", "every key is restored"},
+			{"store", ".Size", ".S", false, "", "the stored size"},
+		}},
+		{"jsonObject", "marshal", []action{
+			{"store", ".S", ".Size", false, "", "the size is captured"},
+			{"mapupdate", "", "getCreateTime", true, "", "every key is captured with the identity of its value"},
+		}},
+		{"jsonObject", "UnmarshalJSON", []action{
+			{"call", "unmarshalAsJSONType", "", true, "", "every stored node is rebuilt"},
+			{"call", "addToNodeMap", "", true, "", "every rebuilt node is registered"},
+			{"call", "setParent", "", true, ".P != nil", "parents are re-linked"},
+			{"call", "unmarshal", "", true, "", "type-dependent state is restored"},
+			{"call", "addToCemetery", "", true, "isTomb(", "tombstones are put back into the cemetery"},
+		}},
+		{"jsonObject", "MarshalJSON", []action{{"call", "marshal", "", true, "", "every node of the node map is captured"}}},
+		{"jsonPrimitive", "marshal", []action{
+			{"store", ".P", "getCreateTime", false, "", "the parent link is captured"},
+			{"store", ".C", "$0.C", false, "", "the creation time is captured"},
+			{"store", ".D", "$0.D", false, "", "the deletion time is captured"},
+		}},
+		{"jsonElement", "marshal", []action{{"store", ".E", "", false, "", "the value is captured"}}},
+		{"jsonElement", "unmarshal", []action{{"store", ".V", ".E", false, "", "the value is restored"}}},
+	}
+	for _, t := range table {
+		fn := u.Fn(pOrda, t.recv, t.fn)
+		if fn == nil {
+			r.Lost(t.recv + "." + t.fn)
+			continue
+		}
+		for _, a := range t.acts {
+			cons := t.recv + "." + t.fn + "/" + a.kind + " " + a.what
+			if a.val != "" {
+				cons += " <- " + a.val
+			}
+			found := false
+			forEachInstr(fn, func(in ssa.Instruction) {
+				if found {
+					return
+				}
+				ok := false
+				switch x := in.(type) {
+				case *ssa.Store:
+					ok = a.kind == "store" && strings.HasSuffix(canonName(x.Addr), a.what) && (a.val == "" || strings.Contains(canonName(x.Val), a.val))
+				case *ssa.MapUpdate:
+					ok = a.kind == "mapupdate" && (a.what == "" || mapFieldOf(x.Map) == a.what) && (a.val == "" || strings.Contains(canonName(x.Value), a.val))
+				case ssa.CallInstruction:
+					ok = a.kind == "call" && calleeName(x) == a.what
+				}
+				if !ok || (a.loop && !inLoop(in.Block())) {
+					return
+				}
+				if a.guard != "" {
+					lits, _ := litStrings(fn, in)
+					if !allPathsContain(lits, a.guard) {
+						return
+					}
+				}
+				found = true
+			})
+			r.Check(found, cons, u.Pos(fn.Pos()), a.why, "missing: "+a.why+" ("+a.kind+" "+a.what+")")
+		}
+	}
+}
